@@ -136,6 +136,17 @@ class BuiltinMixin:
                 return uf('isinst_dyn', Val, Val, B)(v.t, k.t)
         raise Unsupported(f'isinstance class {k!r}')
 
+    def b_issubclass(self, fr, f, args, kw, node):
+        """issubclass(C, K): decided for two classes of /repo; an uninterpreted predicate of (C, K) when C is an opaque class value
+        (e.g. the dtype of a compiled node) and K a named class"""
+        c, k = args
+        if isinstance(c, SClass) and isinstance(k, SClass):
+            return mkbool(self.is_subclass(self.d.classinfo(c.qual), k.qual))
+        if isinstance(c, SDyn) and isinstance(k, (SBuiltin, SClass)):
+            nm = k.name if isinstance(k, SBuiltin) else k.qual
+            return SBool(uf('issubclass_dyn', Val, I, B)(c.t, z3.IntVal(class_id('cls:' + nm))))
+        raise Unsupported('issubclass on these values')
+
     def b_type(self, fr, f, args, kw, node):
         v = args[0]
         if isinstance(v, SObj):
